@@ -84,7 +84,7 @@ def _proc_layer_check(ctx, prefixes, what, level='model_checking'):
         mine = [c for c in f['fails'] if c[0].split('.')[0] in prefixes]
         if mine:
             viol.append({'clause': mine[0][0], 'all_clauses': sorted({c[0] for c in mine}), 'where': 'event %d' % mine[0][1],
-                         'payload': {'layer': 'proc', 'g': f['g'], 'trace': f['trace']}})
+                         'payload': {'layer': 'proc', 'g': f['g'], 'trace': f['trace'], 'fail_idx': mine[0][1]}})
     cov = {'states': res['states'], 'transitions': res['transitions'],
            'traces_validated_against_impl': res['n_traces'], 'samples': res['samples'],
            'evaluations': res['n_decodes'], 'distinct_nontrivial': res['nontrivial'],
